@@ -153,17 +153,22 @@ def _run(ck, m):
     resp = P.adts['nundb::bo::Response']
     err_discr = {str(v['discr']) for v in resp['variants'] if v['name'] in ('Error', 'VersionError')}
     for (s2, tm, els, adt) in enum_switches(hb, call_bi):
-        arms = [tm[k] for k in tm if k in err_discr]
-        if not any(x in pushes for a in arms for x in body if hb.dominates(a, x)):
+        arms = sorted({tm[k] for k in tm if k in err_discr})
+        reach_any = set()
+        for a in arms:
+            reach_any |= hb.reach_from([a], stop=lambda q: q == h, include_start=True)
+        if not any(x in pushes for x in reach_any):
             continue      # a drop ladder over the same value, not the match
+        # on every path from an error arm to its push a discard of the queued messages comes first (reachability, so that arms
+        # merged with an or-pattern or sharing a tail are judged the same way)
         okarms = []
         for a in arms:
-            region = {x for x in body if hb.dominates(a, x)}
-            dr = [x for x in drains if x in region]
-            ps = [x for x in pushes if x in region]
-            okarms.append(bool(dr) and bool(ps) and all(any(hb.dominates(dx, p) for dx in dr) for p in ps))
-        compensated = len(arms) == 2 and all(okarms)
-        why = 'both error arms of the HTTP loop discard queued messages before pushing the error text' if compensated else \
+            with_drain = hb.reach_from([a], stop=lambda q: q == h, include_start=True)
+            no_drain = hb.reach_from([a], stop=lambda q: q == h or q in drains, include_start=True)
+            ps = [x for x in pushes if x in with_drain]
+            okarms.append(bool(ps) and a not in drains and not any(x in no_drain for x in ps) or (a in drains and bool(ps)))
+        compensated = bool(arms) and all(okarms) and {k for k in tm if k in err_discr} == err_discr
+        why = 'the error arms of the HTTP loop discard queued messages before pushing the error text' if compensated else \
             'error arms %d, each discards before its push: %s' % (len(arms), okarms)
     ck.ob('C20.b', fn, 'http-discards-on-error', compensated, why, hb.loc(call_bi))
     seen = set()
